@@ -1,5 +1,6 @@
 import NibabelModel.Model.C01
 import NibabelModel.Lemmas.C01
+import NibabelModel.Lemmas.C01_Donor
 import NibabelModel.Generated.C01FileTypes
 /-! Props/C01 — lossless voxel round-trip through every writable volume format (DESIGN.md §5 C01).
 
@@ -222,7 +223,9 @@ example : (∃ f, mghWrite [] [] 1 (mghImageShape [5, 4]) (fun _ => [0]) = .ok f
 
 /-! ### the `dtype=` save argument -/
 
-/-- `dtype_override_plan`: in `to_file_map(dtype=X)` the byte order the data are written in is the
+/-- GLUE (holds by construction of `Hdr.setDType` / `saveDType`, which identify the byte orders; the statement
+    with independent byte orders and an independent reader is `dtype_override_roundtrip_iff` below).
+    `dtype_override_plan`: in `to_file_map(dtype=X)` the byte order the data are written in is the
     HEADER's, whatever dtype `X` is, in whatever byte order it is spelled (`np.dtype('>i2')`, `'<i2'`,
     `np.int16`, …); the written header announces exactly the dtype the writer was given; without an
     override that is the header's own dtype; and the image's header is left as it was before the call. -/
@@ -238,7 +241,9 @@ theorem dtype_override_plan (h : Hdr) (ovr : Option (DType × OrderSpell)) :
 
 example : (saveDType ⟨.big, ⟨.float, 4, 1⟩⟩ (some (⟨.sint, 2, 1⟩, .little))).1 = (⟨.sint, 2, 1⟩, .big) := rfl
 
-/-- `dtype_override_roundtrip`: a save with ANY `dtype=` override (or none) on a header of EITHER byte
+/-- GLUE (writer and reader both project the same `saveDType h ovr`; superseded by
+    `dtype_override_uses_header_order` / `dtype_override_roundtrip_iff`, whose reader sees the disk only).
+    `dtype_override_roundtrip`: a save with ANY `dtype=` override (or none) on a header of EITHER byte
     order, loaded back through the written header, returns the shape and the elements bit for bit. -/
 theorem dtype_override_roundtrip (hb : List Nat) (offset : Nat) (h : Hdr) (ovr : Option (DType × OrderSpell))
     (shape : List Nat) (A : List Nat → Elem) (hh : hb.length ≤ offset) (hrank : shape ≠ [])
@@ -269,12 +274,145 @@ theorem dtype_override_native_order_counterexample :
   intro h ovr p
   constructor <;> rfl
 
+/-! ### the `dtype=` save argument with independent byte orders (audit item A) -/
+
+/-- the tables of the working tree: per class, (dtype, code) of every dtype name the model knows -/
+def genCodeTable (cls : String) : CodeTable :=
+  match Gen.dtypeCodes.find? (fun c => c.1 = cls) with
+  | some (_, l) => codeTableOfNames l
+  | none => []
+
+/-- `dtype_override_uses_header_order` ("if"): dtype OBJECTS carry their own byte order, the header a code and
+    ITS byte order, and the reader is defined from what is on disk only (`readFileC`: written byte order + code).
+    For every code table without clashes, whenever the writer is handed the header's order (the real policy, or an
+    override that happens to be spelled in the header's order), ANY `dtype=` override on a header of EITHER order
+    round-trips for every shape and every element; the written header announces (header order, code of the
+    override); the image's header is left as it was. -/
+theorem dtype_override_uses_header_order (tb : CodeTable) (hok : tb.okB = true) (pol : OrderPolicy) (h : HdrC)
+    (d : NpDType) (c : Nat) (hc : codeOf tb d.t = some c) (hpol : pol = .header ∨ d.order = h.endian)
+    (hb : List Nat) (offset : Nat) (shape : List Nat) (A : List Nat → Elem)
+    (hh : hb.length ≤ offset) (hrank : shape ≠ []) (hcw : 0 < d.t.cw) (hk : 0 < d.t.k)
+    (hA : ∀ i ∈ enumF shape, ElemOK d.t.cw d.t.k (A i)) :
+    ∃ f wh hafter, saveDT tb pol h (some d) = .ok (⟨d.t, h.endian⟩, wh, hafter) ∧ hafter = h ∧
+      wh = ⟨h.endian, c⟩ ∧
+      writeFileC tb pol hb offset h (some d) shape A = .ok (f, wh) ∧
+      readFileC tb f offset wh shape = .ok (shape, (enumF shape).map A) := by
+  have hdc := codeTable_ok tb hok d.t c hc
+  have hsave : saveDT tb pol h (some d) = .ok (⟨d.t, h.endian⟩, ⟨h.endian, c⟩, h) := by
+    unfold saveDT HdrC.setDType HdrC.getDType
+    simp only [hc, hdc]
+    rcases hpol with hp | hp
+    · subst hp; rfl
+    · cases pol with
+      | header => rfl
+      | override =>
+        have : d = ⟨d.t, h.endian⟩ := by cases d; simp_all
+        simp only []
+        rw [← this]
+  refine ⟨writeFile hb offset h.endian d.t.cw shape A, ⟨h.endian, c⟩, h, hsave, rfl, rfl, ?_, ?_⟩
+  · unfold writeFileC; rw [hsave]
+  · unfold readFileC
+    simp only [hdc]
+    exact roundtrip_bytes hb offset h.endian d.t.cw d.t.k shape A hh hrank hcw hk hA
+
+/-- one failing input per dtype: the single element (1, …, 1), written by the `override` policy -/
+def overrideWitnessFails (tb : CodeTable) (t : DType) (c0 : Nat) (e e' : Endian) : Bool :=
+  match writeFileC tb .override [] 0 ⟨e, c0⟩ (some ⟨t, e'⟩) [1] (fun _ => List.replicate t.k 1) with
+  | .error _ => false
+  | .ok (f, wh) =>
+    match readFileC tb f 0 wh [1] with
+    | .ok (sh, els) => !(sh == [1] && els == [List.replicate t.k 1])
+    | .error _ => true
+
+/-- "only if", witnesses: for EVERY class table of the working tree and EVERY dtype wider than one byte, the
+    `override` policy with a dtype object of the other byte order than the header's stores (1, …, 1) so that it is
+    read back as something else (finite domain: classes × dtypes × 2 orders; the witness is existential) -/
+theorem dtype_override_other_order_fails :
+    ∀ cls ∈ Gen.dtypeCodes.map (·.1), ∀ p ∈ genCodeTable cls, 2 ≤ p.1.cw →
+      overrideWitnessFails (genCodeTable cls) p.1 p.2 .little .big = true ∧
+      overrideWitnessFails (genCodeTable cls) p.1 p.2 .big .little = true := by
+  decide
+
+/-- the regenerated `_data_type_codes` tables: no two dtypes of a class share a code (codeOf / dtypeOfCode are
+    mutually inverse on the table), every dtype name is one the model knows, every writable class has a table -/
+theorem code_tables_generated :
+    (∀ cls ∈ Gen.dtypeCodes.map (·.1), (genCodeTable cls).okB = true ∧
+      (genCodeTable cls).length = ((Gen.dtypeCodes.find? (fun c => c.1 = cls)).map (·.2.length)).getD 0) ∧
+    (∀ c ∈ Gen.classes, c.1 ∈ Gen.dtypeCodes.map (·.1)) := by
+  decide
+
+/-- `dtype_override_roundtrip_iff`: over the tables of the working tree, for a dtype wider than one byte:
+    `to_file_map(dtype=X)` round-trips for ALL headers, offsets, shapes and data IF AND ONLY IF the writer uses the
+    header's byte order (policy `header`) or X is spelled in that order anyway.  A writer / reader pair that agree
+    "by construction" cannot prove this: the reader here never sees `saveDT`. -/
+theorem dtype_override_roundtrip_iff (cls : String) (hcls : cls ∈ Gen.dtypeCodes.map (·.1)) (p : DType × Nat)
+    (hp : p ∈ genCodeTable cls) (hcw : 2 ≤ p.1.cw) (hk : 0 < p.1.k) (pol : OrderPolicy) (e e' : Endian) :
+    (∀ (c0 : Nat) (hb : List Nat) (offset : Nat) (shape : List Nat) (A : List Nat → Elem),
+        hb.length ≤ offset → shape ≠ [] → (∀ i ∈ enumF shape, ElemOK p.1.cw p.1.k (A i)) →
+        ∃ f wh, writeFileC (genCodeTable cls) pol hb offset ⟨e, c0⟩ (some ⟨p.1, e'⟩) shape A = .ok (f, wh) ∧
+          readFileC (genCodeTable cls) f offset wh shape = .ok (shape, (enumF shape).map A))
+    ↔ (pol = .header ∨ e' = e) := by
+  have hok := ((code_tables_generated).1 cls hcls).1
+  constructor
+  · intro H
+    cases pol with
+    | header => exact Or.inl rfl
+    | override =>
+      right
+      have hw := dtype_override_other_order_fails cls hcls p hp hcw
+      have hel : ∀ i ∈ enumF [1], ElemOK p.1.cw p.1.k ((fun _ => List.replicate p.1.k 1) i) := by
+        intro i _
+        refine ⟨by simp, ?_⟩
+        intro c hc
+        have : c = 1 := by simpa using (List.eq_of_mem_replicate hc)
+        subst this
+        exact Nat.one_lt_pow (by omega) (by decide)
+      obtain ⟨f, wh, hwr, hrd⟩ := H p.2 [] 0 [1] (fun _ => List.replicate p.1.k 1) (by simp) (by simp) hel
+      cases e <;> cases e'
+      · rfl
+      · have h1 := hw.1
+        unfold overrideWitnessFails at h1
+        rw [hwr] at h1
+        simp only [] at h1
+        rw [hrd] at h1
+        simp [enumF] at h1
+      · have h1 := hw.2
+        unfold overrideWitnessFails at h1
+        rw [hwr] at h1
+        simp only [] at h1
+        rw [hrd] at h1
+        simp [enumF] at h1
+      · rfl
+  · intro hpol c0 hb offset shape A hh hrank hA
+    have hc : codeOf (genCodeTable cls) p.1 = some p.2 := by
+      have := hok
+      unfold CodeTable.okB at this
+      rw [List.all_eq_true] at this
+      have h2 := this p hp
+      simp only [Bool.and_eq_true, beq_iff_eq] at h2
+      exact h2.2
+    have hpol' : pol = .header ∨ (⟨p.1, e'⟩ : NpDType).order = (⟨e, c0⟩ : HdrC).endian := hpol
+    obtain ⟨f, wh, _, _, _, _, hwr, hrd⟩ :=
+      dtype_override_uses_header_order (genCodeTable cls) hok pol ⟨e, c0⟩ ⟨p.1, e'⟩ p.2 hc hpol' hb offset shape A hh hrank
+        (by simp only []; omega) hk hA
+    exact ⟨f, wh, hwr, hrd⟩
+
+
+example : (⟨.sint, 2, 1⟩, 4) ∈ genCodeTable "Nifti1Pair" := by decide
+example : writeFileC (genCodeTable "Nifti1Pair") .header [] 0 ⟨.big, 16⟩ (some ⟨⟨.sint, 2, 1⟩, .little⟩) [2]
+      (fun i => [i.getD 0 0 + 1]) = .ok ([0, 1, 0, 2], ⟨.big, 4⟩) := rfl
+example : readFileC (genCodeTable "Nifti1Pair") [0, 1, 0, 2] 0 ⟨.big, 4⟩ [2] = .ok ([2], [[1], [2]]) := rfl
+example : writeFileC (genCodeTable "Nifti1Pair") .override [] 0 ⟨.big, 16⟩ (some ⟨⟨.sint, 2, 1⟩, .little⟩) [2]
+      (fun i => [i.getD 0 0 + 1]) = .ok ([1, 0, 2, 0], ⟨.big, 4⟩) := rfl
+
 /-! ### a loaded image saved over its own file -/
 
-/-- `resave_in_place`: `img = load(f); img.to_filename(f)` — because the voxel data are materialised
-    before the target is opened for writing (a decision that never consults file NAMES, so every
-    spelling of the path behaves alike), the file written is byte for byte the file that was loaded, and
-    it reads back to the elements originally saved. -/
+/-- `resave_in_place` (COROLLARY of `roundtrip_bytes`: write ∘ read ∘ write = write, with `copyFirst` a free
+    Boolean fixed to true): IF the voxel data are materialised before the target is opened for writing, the file
+    written is byte for byte the file that was loaded, and it reads back to the elements originally saved.
+    The DECISION to materialise is `maps_file`; the theorem that imports it is `resave_view_in_place` (a
+    weakened guard breaks that one).  File names do not occur in the model: that every spelling of the path
+    behaves alike is checked by the `resave` stream only. -/
 theorem resave_in_place (hb : List Nat) (offset : Nat) (e : Endian) (cw k : Nat) (shape : List Nat)
     (A : List Nat → Elem) (hh : hb.length ≤ offset) (hrank : shape ≠ []) (hcw : 0 < cw) (hk : 0 < k)
     (hA : ∀ i ∈ enumF shape, ElemOK cw k (A i)) :
@@ -327,6 +465,93 @@ theorem mgh_resave_in_place (hdr ftr : List Nat) (cw k : Nat) (shape : List Nat)
 example : ∃ f, mghWrite [1] [2] 1 [2, 1, 2] (fun i => [i.getD 0 0]) = .ok f ∧
     mghResave [1] [2] 1 1 [2, 1, 2] (fun i => [i.getD 0 0]) true = .ok f :=
   ⟨_, rfl, mgh_resave_in_place [1] [2] 1 1 [2, 1, 2] _ _ (by decide) (by decide) (by decide) (by decide) rfl⟩
+
+/-! ### views of memory maps -/
+
+/-- `maps_file_iff`: the guard `maps_file` answers True exactly for the arrays that still read from a mapped
+    file: those with an `np.memmap` or an `mmap.mmap` ANYWHERE in the chain of owners of their memory — however
+    long the chain and whatever it passes through (`np.asarray`, `.view(np.ndarray)`, slices, transposes,
+    `ascontiguousarray`, the memoryview of `np.frombuffer(mmap)`, the array-interface holder of `as_strided` …) -/
+theorem maps_file_iff (chain : List BaseNode) : mapsFile chain = true ↔ ReachesMap chain := by
+  unfold ReachesMap
+  induction chain with
+  | nil => simp [mapsFile]
+  | cons n rest ih =>
+    cases n <;> simp [mapsFile, ih]
+
+example : ReachesMap [.ndarray, .memview, .mmapBuf] := ⟨.mmapBuf, by simp, Or.inr rfl⟩
+example : mapsFile [.ndarray, .other, .ndarray, .memmap, .mmapBuf] = true := rfl
+
+/-- the guard of ae98171b (chain followed through ndarrays only) answered True exactly for maps reached through
+    plain arrays; those are still guarded (`ReachesMapThroughArrays → ReachesMap`), and the repaired guard covers
+    strictly more: `np.frombuffer(mmap)` (array → memoryview → mmap) is the witness -/
+theorem maps_file_arrays_only_counterexample :
+    (∀ chain, mapsFileArraysOnly chain = true ↔ ReachesMapThroughArrays chain) ∧
+    (∀ chain, ReachesMapThroughArrays chain → mapsFile chain = true) ∧
+    ReachesMap [.ndarray, .memview, .mmapBuf] ∧ mapsFileArraysOnly [.ndarray, .memview, .mmapBuf] = false ∧
+    mapsFile [.ndarray, .memview, .mmapBuf] = true :=
+  ⟨maps_file_arrays_only_iff,
+   fun chain h => (maps_file_iff chain).mpr (reachesMap_of_throughArrays chain h),
+   ⟨.mmapBuf, by simp, Or.inr rfl⟩, rfl, rfl⟩
+
+/-- `resave_view_in_place`: an image wrapping ANY chain of views of the data of a loaded image, saved over the
+    file the data map (`mapped`): the copy-before-truncate decision is `maps_file` (imported, not assumed), and
+    the file written is byte for byte the file loaded.  Data not mapped need no copy.  A weaker guard breaks it:
+    `maps_file_orig_counterexample`, `resave_arrays_only_counterexample`. -/
+theorem resave_view_in_place (hb : List Nat) (offset : Nat) (e : Endian) (cw k : Nat) (shape : List Nat)
+    (A : List Nat → Elem) (mapped : Bool) (chain : List BaseNode)
+    (hh : hb.length ≤ offset) (hrank : shape ≠ []) (hcw : 0 < cw) (hk : 0 < k)
+    (hA : ∀ i ∈ enumF shape, ElemOK cw k (A i))
+    (hmap : mapped = true → ReachesMap chain) :
+    resaveVia mapsFile hb offset e cw k shape A mapped chain = .ok (writeFile hb offset e cw shape A) ∧
+    ∀ f, resaveVia mapsFile hb offset e cw k shape A mapped chain = .ok f →
+      readData f offset e cw k shape = .ok (shape, (enumF shape).map A) := by
+  have hc : (!mapped || mapsFile chain) = true := by
+    cases mapped with
+    | false => rfl
+    | true => simpa using (maps_file_iff chain).mpr (hmap rfl)
+  unfold resaveVia
+  rw [hc]
+  exact resave_in_place hb offset e cw k shape A hh hrank hcw hk hA
+
+example : resaveVia mapsFile [7] 2 .little 1 1 [2] (fun i => [i.getD 0 0 + 3]) true [.ndarray, .memmap, .mmapBuf]
+    = .ok [7, 0, 3, 4] := rfl
+example : resaveVia mapsFile [7] 2 .little 1 1 [2] (fun i => [i.getD 0 0 + 3]) false [.ndarray]
+    = .ok [7, 0, 3, 4] := rfl
+
+/-- the same for MGH -/
+theorem mgh_resave_view_in_place (hdr ftr : List Nat) (cw k : Nat) (shape : List Nat) (A : List Nat → Elem)
+    (file : List Nat) (mapped : Bool) (chain : List BaseNode)
+    (hhdr : hdr.length ≤ mghDataOffset) (hcw : 0 < cw) (hk : 0 < k)
+    (hA : ∀ i ∈ enumF shape, ElemOK cw k (A i))
+    (hw : mghWrite hdr ftr cw shape A = .ok file)
+    (hmap : mapped = true → ReachesMap chain) :
+    mghResave hdr ftr cw k shape A (!mapped || mapsFile chain) = .ok file := by
+  have hc : (!mapped || mapsFile chain) = true := by
+    cases mapped with
+    | false => rfl
+    | true => simpa using (maps_file_iff chain).mpr (hmap rfl)
+  rw [hc]
+  exact mgh_resave_in_place hdr ftr cw k shape A file hhdr hcw hk hA hw
+
+example : mghResave [1] [2] 1 1 [2, 1, 2] (fun i => [i.getD 0 0]) (!true || mapsFile [.ndarray, .memmap]) =
+    mghWrite [1] [2] 1 [2, 1, 2] (fun i => [i.getD 0 0]) := rfl
+
+/-- the guard before `fix: copy data viewed from a memory map …` tested `isinstance(data, np.memmap)` only:
+    `np.asarray(img.dataobj)` (chain ndarray → memmap → mmap) slipped through and the file was truncated under
+    the mapping (model: refusal; real process: SIGBUS / destroyed file) -/
+theorem maps_file_orig_counterexample (hb : List Nat) (offset : Nat) (e : Endian) (cw k : Nat) (shape : List Nat)
+    (A : List Nat → Elem) (hrank : shape ≠ []) (hn : shape.prod * (cw * k) ≠ 0) :
+    ReachesMap [.ndarray, .memmap, .mmapBuf] ∧
+    resaveVia mapsFileOrig hb offset e cw k shape A true [.ndarray, .memmap, .mmapBuf] = .error .short :=
+  ⟨⟨.memmap, by simp, Or.inl rfl⟩, resave_lazy_counterexample hb offset e cw k shape A hrank hn⟩
+
+/-- the guard between the two fixes let `np.frombuffer(mmap)` through (finding repaired by
+    `fix: maps_file follows memoryview and array-interface owners to the memory map`) -/
+theorem resave_arrays_only_counterexample (hb : List Nat) (offset : Nat) (e : Endian) (cw k : Nat) (shape : List Nat)
+    (A : List Nat → Elem) (hrank : shape ≠ []) (hn : shape.prod * (cw * k) ≠ 0) :
+    resaveVia mapsFileArraysOnly hb offset e cw k shape A true [.ndarray, .memview, .mmapBuf] = .error .short :=
+  resave_lazy_counterexample hb offset e cw k shape A hrank hn
 
 /-! ### float / complex on-disk types, and no cast at all -/
 
@@ -461,6 +686,154 @@ theorem shape_rules_generated :
 theorem mgh_constants_generated :
     (∀ c ∈ Gen.classes, c.2.1 = "mgh" → c.1 = "MGHImage" ∧ c.2.2.1 ≤ mghDataOffset ∧ c.2.2.2.1 = mghDataOffset) ∧
     (∃ c ∈ Gen.classes, c.2.1 = "mgh") := by
+  decide
+
+/-! ### a header REUSED from another image -/
+
+/-- `header_shape_follows_data`: whatever state the header was in when the image got it — fresh, copied from
+    an image of ANY other shape (trailing or leading length-1 axes more or fewer, another rank, other lengths, the
+    same number of elements), carrying a stale `glmin` or one of the FreeSurfer conventions — after
+    `update_header` (run by the constructor and again by every `to_file_map`) the header reports exactly the
+    shape of the DATA (rank ≥ 1; NIfTI-1 shapes beginning (27307, 1, 6) are the open ico7 alias finding). -/
+theorem header_shape_follows_data (r : ShapeRule) (dimMax glminMax : Nat) (f0 f : ShapeFields) (shape : List Nat)
+    (hrank : shape ≠ [])
+    (halias : r = .nifti1 → shape.take 3 ≠ [27307, 1, 6])
+    (hup : updateHeaderShape r dimMax glminMax f0 shape = .ok f) :
+    hdrGetShape r f = .ok (natsToInts shape) := by
+  unfold updateHeaderShape at hup
+  split at hup
+  · cases hup
+  · next hs hget =>
+    split at hup
+    · next heq =>
+      cases hup
+      rw [hget, heq]
+    · obtain ⟨hg, hl⟩ := setShapeOn_get r dimMax glminMax f0 shape f halias hup
+      unfold hdrGetShape
+      have : f.dims ≠ [] := by
+        intro h0
+        rw [h0] at hl
+        cases shape with
+        | nil => exact hrank rfl
+        | cons a t => simp at hl
+      rw [if_neg this, hg]
+
+-- non-vacuity: the header of a single-volume 4-D image reused for its 3-D volume; a header that is already right;
+-- a long-vector NIfTI-1 header (dim[1] = -1, glmin = N) reused for an ordinary volume
+example : updateHeaderShape .nifti1 32767 2147483647 ⟨[2, 3, 4, 1], 0⟩ [2, 3, 4] = .ok ⟨[2, 3, 4], 0⟩ := rfl
+example : updateHeaderShape .analyze 32767 2147483647 ⟨[2, 3, 4], 0⟩ [2, 3, 4] = .ok ⟨[2, 3, 4], 0⟩ := rfl
+example : updateHeaderShape .nifti1 32767 2147483647 ⟨[-1, 1, 1], 70000⟩ [2, 3] = .ok ⟨[2, 3], 70000⟩ := rfl
+example : hdrGetShape .nifti1 ⟨[2, 3, 4], 0⟩ = .ok (natsToInts [2, 3, 4]) :=
+  header_shape_follows_data .nifti1 32767 2147483647 ⟨[2, 3, 4, 1], 0⟩ _ [2, 3, 4] (by decide) (by decide) rfl
+
+/-- `reused_header_roundtrip`: the round trip with a reused header: the reader takes the shape from the header
+    `update_header` produced from ANY prior header state, and gets back the shape and the elements of the data -/
+theorem reused_header_roundtrip (r : ShapeRule) (dimMax glminMax : Nat) (f0 f : ShapeFields)
+    (h : List Nat) (offset : Nat) (e : Endian) (cw k : Nat) (shape : List Nat) (A : List Nat → Elem)
+    (hh : h.length ≤ offset) (hrank : shape ≠ []) (hcw : 0 < cw) (hk : 0 < k)
+    (hA : ∀ i ∈ enumF shape, ElemOK cw k (A i))
+    (halias : r = .nifti1 → shape.take 3 ≠ [27307, 1, 6])
+    (hup : updateHeaderShape r dimMax glminMax f0 shape = .ok f) :
+    ∃ hs, hdrGetShape r f = .ok hs ∧
+      readData (writeFile h offset e cw shape A) offset e cw k (hs.map Int.toNat)
+        = .ok (shape, (enumF shape).map A) := by
+  refine ⟨natsToInts shape, header_shape_follows_data r dimMax glminMax f0 f shape hrank halias hup, ?_⟩
+  rw [natsToInts_toNat]
+  exact roundtrip_bytes h offset e cw k shape A hh hrank hcw hk hA
+
+example : ∃ hs, hdrGetShape .nifti2 ⟨[2, 1], 0⟩ = .ok hs ∧
+    readData (writeFile [9] 2 .big 1 [2, 1] (fun i => [i.getD 0 0 + 5])) 2 .big 1 1 (hs.map Int.toNat)
+      = .ok ([2, 1], [[5], [6]]) :=
+  reused_header_roundtrip .nifti2 32767 0 ⟨[2, 1, 1, 1], 0⟩ _ [9] 2 .big 1 1 [2, 1] _ (by decide) (by decide)
+    (by decide) (by decide) (by decide) (by decide) rfl
+
+/-- the seeded "tolerant" `update_header` (header left alone when it only has extra trailing length-1 axes):
+    the header of a (2,3,4,1) image reused for (2,3,4) data keeps announcing (2,3,4,1) — under every shape rule —
+    while the modelled code rewrites it to (2,3,4) -/
+theorem update_header_tolerant_counterexample (r : ShapeRule) :
+    updateHeaderShapeTolerant r 32767 2147483647 ⟨[2, 3, 4, 1], 0⟩ [2, 3, 4] = .ok ⟨[2, 3, 4, 1], 0⟩ ∧
+    hdrGetShape r ⟨[2, 3, 4, 1], 0⟩ = .ok [2, 3, 4, 1] ∧
+    updateHeaderShape r 32767 2147483647 ⟨[2, 3, 4, 1], 0⟩ [2, 3, 4] = .ok ⟨[2, 3, 4], 0⟩ := by
+  cases r <;> exact ⟨rfl, rfl, rfl⟩
+
+/-- `from_header_state`: what `header_class.from_header(donor)` hands to the image.  Same header class: the
+    donor itself (byte order, dtype, every field).  Another class: REFUSED (HeaderDataError) when the target class
+    has no code for the donor's dtype (`supports`, regenerated `Gen.dtypeCodes`) or cannot hold the donor's shape;
+    otherwise a NATIVE-order header with the donor's dtype — which the target supports — reporting the donor's
+    shape. -/
+theorem from_header_state (same : Bool) (native : Endian) (r : ShapeRule) (dimMax glminMax : Nat)
+    (supports : DType → Bool) (dg : Bool) (donor : HdrState) (donorShape : List Nat)
+    (halias : r = .nifti1 → donorShape.take 3 ≠ [27307, 1, 6]) :
+    (same = true → fromHeader same native r dimMax glminMax supports dg donor donorShape = .ok donor) ∧
+    (same = false → supports donor.dtype = false →
+      fromHeader same native r dimMax glminMax supports dg donor donorShape = .error .headerData) ∧
+    (∀ h', fromHeader same native r dimMax glminMax supports dg donor donorShape = .ok h' →
+      h'.dtype = donor.dtype ∧
+      (same = false → supports h'.dtype = true ∧ h'.endian = native ∧
+        getShape r h'.fields = .ok (natsToInts donorShape))) := by
+  refine ⟨?_, ?_, ?_⟩
+  · intro hs; subst hs; rfl
+  · intro hs hsup; subst hs; simp [fromHeader, hsup]
+  · intro h' hconv
+    unfold fromHeader at hconv
+    cases same with
+    | true => simp at hconv; subst hconv; simp
+    | false =>
+      simp only [Bool.false_eq_true, if_false] at hconv
+      split at hconv
+      · cases hconv
+      · next hsup =>
+        split at hconv
+        · cases hconv
+        · next f hf =>
+          cases hconv
+          refine ⟨rfl, fun _ => ⟨by simpa using hsup, rfl, ?_⟩⟩
+          exact (setShapeOn_get r dimMax glminMax _ donorShape f halias hf).1
+
+example : fromHeader false .little .nifti1 32767 2147483647 (fun _ => true) true
+      ⟨.big, ⟨.sint, 2, 1⟩, ⟨[70000, 1, 1], 0⟩⟩ [70000, 1, 1]
+    = .ok ⟨.little, ⟨.sint, 2, 1⟩, ⟨[-1, 1, 1], 70000⟩⟩ := rfl
+example : fromHeader false .little .analyze 32767 2147483647 (fun _ => true) true
+      ⟨.big, ⟨.sint, 2, 1⟩, ⟨[-1, 1, 1], 70000⟩⟩ [70000, 1, 1]
+    = .error .headerData := rfl
+-- a NIfTI int8 header handed to an Analyze image: no code for int8 in the Analyze table
+example : fromHeader false .little .analyze 32767 2147483647
+      (fun t => (codeOf (genCodeTable "AnalyzeImage") t).isSome) true ⟨.big, ⟨.sint, 1, 1⟩, ⟨[2, 3], 0⟩⟩ [2, 3]
+    = .error .headerData := rfl
+example : (codeOf (genCodeTable "AnalyzeImage") ⟨.sint, 2, 1⟩).isSome = true := by decide
+
+/-- MGH: the header shape after `update_header` and the file written do not depend on what the (4-number)
+    `dims` field held before — `mgh_layout` / `mgh_shape_accepted_iff` speak about reused headers too -/
+theorem mgh_donor_irrelevant (dims0 hdr ftr : List Nat) (cw : Nat) (s : List Nat) (A : List Nat → Elem)
+    (h4 : dims0.length = 4) :
+    (mghUpdate dims0 s).map mghGetShape = mghHeaderShape s ∧
+    (mghWriteOn dims0 hdr ftr cw s A).map (·.2) = mghWrite hdr ftr cw s A :=
+  ⟨mghUpdate_get dims0 s h4, mghWriteOn_eq dims0 hdr ftr cw s A h4⟩
+
+example : mghWriteOn [2, 3, 4, 1] [1] [2] 1 [1, 1, 2, 2] (fun i => [i.getD 2 0]) 
+    = .ok ([1, 1, 2, 2], padTo mghDataOffset [1] ++ [0, 1, 0, 1] ++ [2]) := rfl
+
+/-- the regenerated tables the reused-header model consults: the header classes of the writable image classes
+    are pairwise different (so "same header class" — the `type(header) == klass` test of `from_header` — is "same
+    image class"), every class has one, and a fresh `MGHHeader` holds the `dims` the model starts from -/
+theorem donor_tables_generated :
+    (Gen.headerClasses.map (·.2)).Nodup ∧
+    (∀ c ∈ Gen.classes, ∃ h ∈ Gen.headerClasses, h.1 = c.1) ∧
+    Gen.mghFreshDims = mghFreshDims ∧ mghFreshDims.length = 4 := by
+  decide
+
+/-- one regenerated sample agrees with the model: data offset, and footer offset of the `dims` that
+    `set_data_shape` stores -/
+def mghFooterSampleOK (sm : Nat × Nat × List Nat × Nat × Nat) : Bool :=
+  match mghSetDims sm.2.2.1 with
+  | .ok dims => sm.2.2.2.1 == mghDataOffset && mghFooterOffset sm.1 sm.2.1 dims == sm.2.2.2.2
+  | .error _ => false
+
+/-- the hand-typed `mghFooterOffset` / `mghDataOffset` agree with `MGHHeader.get_footer_offset()` /
+    `get_data_offset()` of the working tree on the regenerated samples (every MGH dtype × 3-D, 4-D, long and
+    short shapes) — a sample tie; the general statement about the model is `mgh_layout` -/
+theorem mgh_footer_offset_generated :
+    (∀ sm ∈ Gen.mghFooterSamples, mghFooterSampleOK sm = true) ∧ Gen.mghFooterSamples.length ≥ 8 := by
   decide
 
 /-! ### codec choice by file name (over the regenerated tables) -/
